@@ -69,6 +69,8 @@ Verdict(sg, ev) ==
     IF ev.stray # 0 THEN "stray-keys"
     ELSE IF ~(r.out = "either" \/ r.out = ev.out) THEN "outcome"
     ELSE IF ev.post # s2 THEN "state"
+    \* (a log of edits: an operation that was refused is no edit and logs nothing)
+    ELSE IF ev.out = "raise" /\ ev.delta # <<>> THEN "refused-operation-logged"
     ELSE IF ~DeltaOK(sg, S, s2, ev.op, ev.delta, trk) THEN "delta"
     ELSE IF ~SeqsOK(ev, maxseq) THEN "sequence-ids"
     ELSE IF ~Attributed(ev) THEN "attribution"
